@@ -65,9 +65,6 @@ DiffFields(pred, obs) ==
 \* the logged line without the observation: the action and its arguments
 ActionOf(s) == [f \in DOMAIN s \ {"p"} |-> s[f]]
 
-\* in pair mode the peer of an endpoint whose HPACK encoder context is unpredictable cannot be predicted either
-Unpredictable == Pair /\ \E x \in Roles : eps[x].hd
-
 TraceInit ==
   /\ tid \in 1..Len(Traces)
   /\ pos = 1
@@ -79,11 +76,7 @@ TraceInit ==
 
 \* A step that hands a header block to an HPACK decoder that gave up in the middle of an earlier block (after which the
 \* connection is closed anyway) has no predictable outcome: the trace is validated up to that point ("cut").
-HasBlock(fs) == \E i \in 1..Len(fs) : fs[i].t \in {"HEADERS", "PP"}
-FeedsLostDecoder(s) ==
-  /\ s.a \in {"recv", "dlv"}
-  /\ eps[s.x].dl
-  /\ HasBlock(eps[s.x].pend \o (IF s.a = "recv" THEN s.fs ELSE SubSeq(chan[s.x], 1, s.k)))
+FeedsLostDecoder(s) == Unpredictable([eps |-> eps, chan |-> chan], s)
 
 TraceNext ==
   /\ verdict.k = "running"
